@@ -16,7 +16,7 @@ commands (harness/src/life/svc.rs, bin `lifecycle`).
        node-level steps `node:…`, which are atomic abstractions of the C07 model, carry no system call of these roles);
  (ii)  SIGKILL on entering EVERY such system call of the creator (and of the opener); then the real survivors: files by kind, clean-up
        result, files by kind, result of the re-creation = the model's prediction for that crash point;
- (iii) the witnesses of the refuted statements replayed (FINDINGS)."""
+ (iii) the witnesses of the refuted statements replayed (FINDINGS); witnesses of repaired defects replayed against the model (REGRESSIONS)."""
 import core, os, re, subprocess, time, shutil, glob, stat, signal
 import pC07
 from pC07 import LINE, report
@@ -27,7 +27,7 @@ LIFE = os.environ.get("VERIF_LIFECYCLE_BIN", pC07.LIFE)
 COMP = "svccrash"
 SET = pC07.SET.replace(",getdents64", "") + ",ftruncate,mmap"
 SVC = "verif/svccrash"
-HANG_S = 4.0          # a survivor that has not returned after this many seconds is reported as `hang` (and killed)
+HANG_S = 4.0          # a survivor that has not returned after this many seconds is reported as `hang` (and killed); the model has no such outcome
 INIT_MODE = {"stag": "0600", "static": "0600", "dyn": "0200"}
 
 
@@ -228,8 +228,8 @@ def parse_kv(line):
 
 VICTIMS = {
     # kind: (harness command, model reset line, model spawn line, holder needed)
-    "creator": ("svc-create", "reset root", "spawn v creator 0", False),
-    "opener": ("svc-open", "reset root held", "spawn v opener", True),
+    "creator": ("svc-create", "reset", "spawn v creator 0", False),
+    "opener": ("svc-open", "reset held", "spawn v opener", True),
 }
 
 
@@ -412,14 +412,6 @@ def finding_static_locked(ctx):
     return (e["clean1"] == "ok" and e["after"] == "static=locked" and e["recreate"] == "err:AlreadyExists"), describe(e)
 
 
-def finding_dyn_unsized(ctx):
-    e = replay_point("ftruncate dyn")
-    if e is None:
-        return False, "kill point not found"
-    return (e["clean1"] == "hang" and e["clean2"] == "hang" and "dyn=created" in e["after"] and e["recreate"] == "err:AlreadyExists"), \
-        describe(e) + f" (hang = no result within {HANG_S} s, the survivor repeats open + fstat of the dynamic config: {e['csteps'][0][-4:]})"
-
-
 FINDINGS = [
     ("finding:svc-kill-in-service-tag-creation-node-uncollectable",
      "a process killed inside create_service_tag of `create` / `open` (node/mod.rs:1083-1103: static storage `create` = open(O_CREAT|O_EXCL, 0600) … fchmod(0400)) leaves a service tag "
@@ -433,13 +425,41 @@ FINDINGS = [
      "the tag; the clean-up reports success, the 0600 file stays and no API removes it: create ⇒ AlreadyExists, open ⇒ HangsInCreation for ever "
      "(theorem C04Service.crash_with_locked_static_config_not_restored)",
      finding_static_locked),
-    ("finding:svc-kill-before-dynamic-config-sized-cleanup-spins",
-     "uid 0 only: a creator killed between shm_open(O_CREAT|O_EXCL, 0200) and ftruncate of the dynamic config leaves a 0-byte shm object; root can open it, the mapping is refused with "
-     "MappingSizeIsZero and posix_shared_memory.rs open_impl (:251-253) waits and retries WITHOUT a time-out check: open_dynamic_config — i.e. every dead-node clean-up of that node, and every "
-     "`open` of the service — spins for ever; nothing is removed, create ⇒ AlreadyExists (theorem C04Service.crash_before_dynamic_config_sized_cleanup_spins; an ordinary user gets EACCES ⇒ "
-     "InitializationNotYetFinalized and the clean-up succeeds: crash_before_dynamic_config_sized_user_restored)",
-     finding_dyn_unsized),
 ]
+
+
+REGRESSIONS = [
+    # (violation key, victim kind, system call the victim is killed in, what the defect was)
+    ("regress:svc-dynamic-config-unsized-spin", "creator", "ftruncate dyn",
+     "repaired defect (fix 150ae1b; formerly finding:svc-kill-before-dynamic-config-sized-cleanup-spins): a creator killed between shm_open(O_CREAT|O_EXCL, 0200) and ftruncate of the "
+     "dynamic config leaves a 0-byte shm object; uid 0 can open it, and posix_shared_memory.rs open_impl retried MappingSizeIsZero without a time-out check, so every dead-node clean-up "
+     "of that node (and every `open` of the service) span for ever and the name stayed taken"),
+]
+
+
+def replay_regressions(ctx):
+    """repaired defects: the witness scenario stays as a regression replay; it is compared with the model (which follows the repaired code), a return of the old
+    behaviour is a violation under a `regress:` key"""
+    for key, kind, step, what in REGRESSIONS:
+        ctx.count("findings.replayed")
+        ctx.evaluations += 1
+        err = "kill point not found"
+        try:
+            e = replay_point(step, kind=kind)
+        except Exception as ex:      # noqa
+            e, err = None, repr(ex)
+        if e is None:
+            ctx.violation(key, f"regression replay could not be run (kill point `{step}` of the {kind}: {err}): {what}", dict(engine="svccrash", kind=kind, step=step), nfi=True)
+            continue
+        msteps = model([VICTIMS[kind][1], VICTIMS[kind][2], "trace v"])[-1].split(";")
+        fuse = [i for i, x in enumerate(msteps) if x == step][0]
+        mod = prediction(kind, fuse)
+        diff = agree(e, mod)
+        if diff or "hang" in (e["clean1"], e["clean2"], e["recreate"]):
+            ctx.violation(key, f"{kind} killed on entering `{step}`: {describe(e)}; the model (repaired code) predicts clean-up `{mod['clean1']}`, left `{mod['after']}`, "
+                               f"re-creation `{mod['recreate']}` (differing: {', '.join(diff)}). {what}", dict(engine="svccrash", kind=kind, step=step, fuse=fuse, impl=e, model=mod))
+        else:
+            ctx.log(f"[regress] {key}: repaired behaviour confirmed ({describe(e)})")
 
 
 def replay_findings(ctx):
@@ -450,6 +470,7 @@ def replay_findings(ctx):
         pC07.replay_findings(ctx)
     finally:
         pC07.FINDINGS = saved
+    replay_regressions(ctx)
 
 
 RULE = ("service level: real `create` of a publish-subscribe ipc service by a process with a node (harness bin `lifecycle svc-create`), killed with SIGKILL on entering EVERY system call "
@@ -458,7 +479,8 @@ RULE = ("service level: real `create` of a publish-subscribe ipc service by a pr
         "(`lifecycle clean`, traced; a survivor without result after 4 s counts as `hang`), files left by kind (static config locked/final, dynamic config created/sized/final, service tag init/final, "
         "node token, node directory), then `create` of the same name by a fresh node (`lifecycle svc-recreate`): results, leftovers and the canonicalised system-call sequences of survivors and "
         "re-creator = the prediction of the model Iox2/Model/ServiceCrash.lean for that crash point (theorem C04Service.creator_kill_table); the same for `open` of a service held by a living "
-        "process (kill at every system call of the opener; after the clean-up the holder drops the service, which must then be gone and creatable); witnesses of the three refuted statements replayed")
+        "process (kill at every system call of the opener; after the clean-up the holder drops the service, which must then be gone and creatable); witnesses of the two refuted statements replayed; "
+        "regression replay of the repaired zero-sized-dynamic-config spin (kill on entering ftruncate of the dynamic config) against the model")
 
 ASSUMPTIONS = [
     "service level: publish-subscribe, ipc, fixed-size payload (no type-definition resource); one service name, one victim node; the node-level halves of the clean-up (Node::list + state() + "
@@ -466,8 +488,8 @@ ASSUMPTIONS = [
     "kill points inside node creation are covered there, not here",
     "survivors run one after the other (the clean-up lock makes concurrent cleaners exclusive: C07.cleaners_mutually_exclusive); the re-creator starts after the clean-up attempts; "
     "a creator racing with a cleaner of another dead node that holds a tag of the same service (notes/lifecycle-protocol.md D.B race) is not modelled",
-    "uid 0 (sandbox): open of a 0200 shm object succeeds; the model carries the flag `root`, the ordinary-user column of the table (EACCES ⇒ InitializationNotYetFinalized) is by reading "
-    "posix_shared_memory.rs:236-244 and proved in the model but not executed",
+    "the survivors run with uid 0 (sandbox): open of a 0200 shm object succeeds and fstat decides; an ordinary user gets EACCES from that open and reaches the same "
+    "InitializationNotYetFinalized ⇒ Ok(None) branch earlier (by reading posix_shared_memory.rs open_impl; same outcomes since fix 150ae1b, hence no uid parameter in the model; not executed)",
     "the stores of the dynamic-config initialisation (version := 0, containers, register_node_id, version) are invisible to strace: their position between mmap and the final fchmod is by reading "
     "(posix_shared_memory.rs:337-396); a kill between them is the model's crash points 16‥18, observably equal to 15 and 19",
     "time-outs: creation_timeout plays no role for the survivors (read_static_service_config and open_dynamic_config use timeout 0); the opener's wait loop is not modelled (it reports HangsInCreation at once)",
@@ -526,6 +548,8 @@ if __name__ == "__main__":
             for key, what, fn in FINDINGS:
                 if len(sys.argv) < 3 or sys.argv[2] == key:
                     print(key, fn(ctx))
+            if len(sys.argv) < 3 or sys.argv[2].startswith("regress:"):
+                replay_regressions(ctx)
         else:
             for kind in (sys.argv[2:] or KINDS):
                 for r in kill_table(ctx, kind):
